@@ -281,9 +281,13 @@ def r12c(run):
     # 4. datetime -> time
     f = T.methods["to_time"]
     fa = analysis(f)
+    # by role: every return made for an input known to be a datetime / date (positive isinstance fact on the input) turns a
+    # dated value into a time, however the time is built (data.time(), t(data.hour, ...), t())
     for n in fa.cfg.nodes:
-        if n.kind == "stmt" and isinstance(n.ast, ast.Return) and isinstance(n.ast.value, ast.Call) \
-                and (unparse(n.ast.value) == f"{f.params[1]}.time()" or unparse(n.ast.value) == "t()"):
+        if n.kind == "stmt" and isinstance(n.ast, ast.Return) and n.ast.value is not None and fa.cfg.is_live(n) \
+                and any(p and isinstance(a, ast.Call) and call_attr(a) == "isinstance" and len(a.args) == 2
+                        and unparse(a.args[0]) == f.params[1] and unparse(a.args[1]) in ("datetime", "date")
+                        for a, p in fa.facts.atoms_at(n)):
             gate(f, n, "date part dropped", "a datetime becomes a time under no_data_loss")
     # 5. bool(data) fallback; int truncation
     f = T.methods["to_bool"]
